@@ -438,6 +438,18 @@ where
                 );
                 if enqueued {
                     self.piece_refs.push(piece);
+                } else {
+                    // The entry cannot be written (too large, or the buffer is full). An older copy of the same key
+                    // must not be served instead of it: invalidate it like a delete with this entry's sequence.
+                    let hash = piece.hash();
+                    let stats = self.indexer.insert_tombstone(hash, sequence).map(|addr| InvalidStats {
+                        block: addr.block,
+                        size: bits::align_up(PAGE, addr.len as usize),
+                    });
+                    self.tombstone_infos.push(TombstoneInfo {
+                        tombstone: Tombstone { hash, sequence },
+                        stats,
+                    });
                 }
                 report(enqueued);
                 self.submit_queue_size.fetch_sub(estimated_size, Ordering::Relaxed);
